@@ -36,6 +36,17 @@ def bitsFor (n : Nat) : Nat := if n = 0 then 0 else Nat.log2 n + 1
 def find? (c : Collection) (ty idx : Nat) : Option Descr :=
   c.find? (fun d => d.ty == ty && d.idx == idx)
 
+/-- One cycle of a descriptor handler's outputs (`tx.valid/first/last/payload`, `stall`). -/
+structure Beat where
+  valid   : Bool
+  first   : Bool
+  last    : Bool
+  payload : Nat
+  stall   : Bool
+deriving Repr, DecidableEq
+
+def Beat.quiet : Beat := ⟨false, false, false, 0, false⟩
+
 namespace Rom
 
 def insertSorted (d : Descr) : List Descr → List Descr
@@ -125,15 +136,14 @@ def Rom.Image.ptrOf (img : Rom.Image) (w : Nat) : Nat := (w / 4) % 2 ^ img.addrW
 /-- `rom_element_count` of a ROM word: the upper half. -/
 def countOf (w : Nat) : Nat := w / 65536
 
-/-- START / LOOKUP_TYPE / LOOKUP_DESCRIPTOR: `some (length, base word address)` or `none` = STALL. -/
-def Rom.Image.lookup (img : Rom.Image) (ty idx : Nat) : Option (Nat × Nat) :=
+/-- START / LOOKUP_TYPE / LOOKUP_DESCRIPTOR: `some w` = the entry word `(length << 16) | byte address`
+reached by the two pointer hops, or `none` = STALL. -/
+def Rom.Image.lookup (img : Rom.Image) (ty idx : Nat) : Option Nat :=
   if ty ≤ img.maxType then
     let w1 := img.read (ty % 2 ^ img.addrW)
     let di := img.descrIdx ty idx
     if di ≥ countOf w1 then none
-    else
-      let w2 := img.read ((img.ptrOf w1 + di) % 2 ^ img.addrW)
-      some (countOf w2, img.ptrOf w2)
+    else some (img.read ((img.ptrOf w1 + di) % 2 ^ img.addrW))
   else none
 
 /-- byte `k` of the descriptor stored from word `base`: big-endian byte `k % 4` of word `base + k/4`. -/
@@ -144,12 +154,15 @@ def Rom.Image.bytesAt (img : Rom.Image) (base len : Nat) : List Nat :=
   (List.range len).map (img.byteAt base)
 
 /-- What `rom_lookup_correct` says about one request: a descriptor that is present is reached by
-the pointer hops with its length, and its bytes are read back; an absent one is refused. -/
+the pointer hops — the entry word is word aligned, carries the descriptor's length, and the bytes
+read back from its address are the descriptor; the longest-descriptor bound covers it — and an
+absent one is refused. -/
 def lookupOk (img : Rom.Image) (c : Collection) (ty idx : Nat) : Bool :=
   match find? c ty idx with
   | some d =>
     (match img.lookup ty idx with
-     | some (len, base) => len == d.bytes.length && img.bytesAt base len == d.bytes
+     | some w => w % 4 == 0 && countOf w == d.bytes.length && d.bytes.length ≤ img.maxLen
+                 && img.bytesAt (img.ptrOf w) d.bytes.length == d.bytes
      | none => false)
   | none => (img.lookup ty idx).isNone
 
